@@ -58,14 +58,44 @@ CLAIMED = {
         technique='CBMC function contracts (DFCC) on extracted C++ templates + loop-invariant/variant hooks with ghost index',
         design='DESIGN.md §3 C25'),
     'C28': dict(
-        text='Partial. Storage layer: proof of PiggyList<T>::get/createNode/append and RandomInsertPiggyList<T>::get/insertAt (T = unsigned long) — '
+        text='Partial. (1) Closure: everything proved for the union-find under C29 (insert is unionNodes; the classes are the forest partition). (2) Storage layer: proof of PiggyList<T>::get/createNode/append and RandomInsertPiggyList<T>::get/insertAt (T = unsigned long) — '
              'addressing is the bijection index+2^16 = (2^16<<bn)+bi, the addressed block is allocated, growth keeps the representation invariant, '
              'returns the old size, leaves existing blocks untouched, append stores the element (loop invariants, all sizes below 2^31-2^16). '
-             'NOT covered yet: the union-find closure (C29 unit), EquivalenceRelation iterators/partition cache/extendAndInsert, SparseDisjointSet.',
+             'NOT covered: EquivalenceRelation iterators, size(), partition cache, extendAndInsert, SparseDisjointSet sparse<->dense maps (LambdaBTreeSet, std::function, lambdas: outside the front end).',
         note='sequential contracts (no interference) for the growth functions; SpinLock as ghost mutex; operator new[] modelled as fresh allocation; '
              'index + 2^16 < 2^31 (int shift in get())',
         technique='CBMC function contracts (DFCC) on extracted C++ class templates + loop-invariant hooks + ghost indices',
         design='DESIGN.md §3 C28'),
+    'C24': dict(
+        text='Numeric fragment. Proof, per operator and for ALL 32-bit operand values in the operator\'s defined domain, that (a) the interpreter\'s '
+             'real switch in Engine::execute CASE(IntrinsicOperator)/CASE(Constraint) (macro block preprocessed each run) and (b) the C++ expression '
+             'the synthesiser really emits for that operator (emitter text compiled and executed natively each run) both equal a specification written '
+             'from the property statement (wrap-around unsigned arithmetic, truncating division, masked shifts, IEEE binary32 arithmetic, C conversions, '
+             '0/1 logical results, three-way NaN-aware comparisons); hence interpreter == compiled == spec. 57 functors x 2 engines, 16 constraints x 2, '
+             'n-ary MIN/MAX with a loop invariant for any arity. NOT covered: string operators (symbol table code), RANGE generators, user-defined functors.',
+        note='CBMC bit-vector/IEEE-754 semantics trusted; std::pow uninterpreted; ramBitCast replaced by a union cast (R10); sub-expression evaluation '
+             'abstracted to an argument array; DIV/MOD specified as C\'s truncating / and % on the 32-bit type; RAM_DOMAIN_SIZE=32',
+        technique='CBMC function contracts (DFCC) on the preprocessed interpreter switch and on natively emitted synthesiser expressions; back end per obligation (minisat / z3 / kissat)',
+        design='DESIGN.md §3 C24'),
+    'C29': dict(
+        text='Proof, for every forest of at most N nodes (N=4 quick, 5 thorough; the only bound) and for every number of threads, every schedule and every number '
+             'of iterations, of contracts on the real DisjointSet::findNode/updateRoot/unionNodes/sameSet/makeNode/b2p/b2r/pr2b under rely/guarantee with ghost state '
+             '(class labels, frozen ranks): every atomic step is a path-halving, root-link or rank-bump step that keeps INV (keys strictly increase along parent '
+             'links => no cycle other than root self-loops; forest partition == ghost partition; ranks bounded); every merge joins the classes of the stepping '
+             'thread\'s own unionNodes arguments and unionNodes returns only when they are joined (=> final partition == closure of requested unions); sameSet\'s '
+             'answer holds at an instant during the call (ghost snapshots). Callers are checked against findNode\'s contract (modular). Plus sequential functional contracts.',
+        note='bounded in the node count only; sequential consistency; node count fixed during find/union/sameSet; PiggyList abstracted to an array (its addressing is proved in C28); progress not claimed',
+        technique='CBMC function contracts (DFCC, enforce + replace-call-with-contract) on extracted C++ + rely/guarantee ghost monitor + loop-invariant hooks; native exploration replay',
+        design='DESIGN.md §3 C29'),
+    'C17': dict(
+        text='Partial, BOUNDED (not a proof). For every symbol of at most 4 (thorough: 6) characters over all byte values except NUL/CR/LF and every single-character '
+             'delimiter, the real WriteStreamCSV::outputSymbol(column value) followed by the real ReadStreamCSV::nextElement returns the same symbol and leaves the reader '
+             'after the delimiter, for RFC 4180 quoting and for plain delimited text. NOT covered: all other attribute types, records/ADTs, headers, multi-line '
+             'fields, gzip, JSON, SQLite.',
+        note='bounded stand-in: loops unwound to the string bound with unwinding assertions; std::string/ostream replaced by a bounded scaffold; labelled bounded in evidence and never counted as proved',
+        category='other',
+        technique='CBMC function contract on the write-then-read composition of the two extracted functions, bounded unwinding (bounded stand-in)',
+        design='DESIGN.md §3 C17'),
 }
 
 NA_PENDING = 'not claimed yet: the contract unit planned in DESIGN.md §3 has not been built'
@@ -114,7 +144,7 @@ def main():
             evidence_file='/verif/evidence/%s.json' % pid,
             replay_cmd_template='./vx replay %s {path}' % pid,
             engine='vx',
-            level_claimed=dict(category='proof', text=c['text'], design_ref=c['design']),
+            level_claimed=dict(category=c.get('category', 'proof'), text=c['text'], design_ref=c['design']),
             level_note=c['note'],
             technique=c['technique'],
         ))
